@@ -239,6 +239,9 @@ def _root_local(e):
         k = e.get("k")
         if k == "Ref" and "id" in e:
             return e
+        if k == "Mem" and C.member_name(e):
+            # a name kept in a member of the manager: a pseudo local keyed by the member
+            return {"k": "Ref", "id": ("member", C.member_name(e)), "n": C.member_name(e), "member": True, "l": e.get("l")}
         if k == "Call" and e.get("obj") is not None:
             e = C.strip_casts(e["obj"])
         elif k == "Mem":
@@ -676,6 +679,10 @@ def run(chk, prog):
     from . import c14_remove
     n_u7 = c14_remove.rule_U7(chk, fn, g, shift_renames, dump_renames, dump_local, name_helpers)
     chk.floor("U7", n_u7, 1)
+
+    # ---- U8: no other method of the manager deletes a dump or a backup ------------------------------------------------
+    n_u8 = c14_remove.rule_U8(chk, u, fn)
+    chk.floor("U8", n_u8, 1)
 
     # ---- U5: caller --------------------------------------------------------
     ur = prog.unit("TaskBasedRadiationHydrodynamicsSimulation.cpp")
